@@ -52,7 +52,7 @@ StepCall(e) ==
   LET a == [name |-> e.ev] @@ e
       q == Obs(e.post)
       r == Step(c, p, a)
-      hasRes == e.ev \in {"Add", "Check", "AddEnd"} \/ (e.ev = "AddBegin" /\ e.stage = "returned")
+      hasRes == TRUE      \* every call is logged with its outcome: ok | err | panic
       bad == StateStepViol(c, p, q) \cup StepViol(c, p, q, a)
   IN
   /\ c' = c
